@@ -289,7 +289,8 @@ Proof.
     destruct (save_direct _ o). injection E as <- <- <-. contradiction.
   - destruct (save_direct _ o). injection E as <- <- <-. contradiction.
   - injection E as <- <- <-. contradiction.
-  - destruct (data_of s o); injection E as <- <- <-; contradiction.
+  - destruct (data_of s o) as [d|]; [destruct (kv_get d k); [destruct (save_direct _ o)|]|];
+      injection E as <- <- <-; contradiction.
   - destruct (login_C04 s o ob u exclusive Hp Hco Hnd Hf Hg)
       as [s2 [r' (E2 & _ & Ho & _ & _ & Hr & _ & _ & _ & _ & HL & _)]].
     rewrite E2 in E. injection E as <- <- <-. destruct Hin as [Hin|[]]. injection Hin as <-.
